@@ -383,8 +383,77 @@ def sample_probes(rng, text, n):
     return probes
 
 
+
+def gen_sigcache_case(seed, tier, i, rng):
+    """directed family for the time-limited signature cache (keyed by path, text before the bracket and
+    bracket position): ONE pathed buffer whose call sites never move - single-line calls, calls that
+    continue on later lines (cursor below the bracket's line), nested calls, a call through a rebound
+    name - while only the callees change underneath (parameters added/renamed, the name rebound), with
+    clock advances around the 3 s validity window; every query asks ALL call sites"""
+    k = [0]
+
+    def text(state):
+        a, b, m, pick = state
+        return '\n'.join([
+            'def callee_a(p1%s):' % a,
+            '    return p1',
+            '',
+            '',
+            'def callee_b(q1%s):' % b,
+            '    return q1',
+            '',
+            '',
+            'class Maker:',
+            '    def __init__(self, m1%s):' % m,
+            '        self.m1 = m1',
+            '',
+            '',
+            'res_a = callee_a(1, 2)',
+            'res_b = callee_b(',
+            '    3)',
+            'res_c = callee_a(callee_b(4),',
+            '                 5)',
+            'res_d = Maker(',
+            '    6',
+            ')',
+            'pick = %s' % pick,
+            'res_e = pick(7,',
+            '             8)',
+            '']) + '\n'
+    probes = [{'m': 'get_signatures', 'l': 14, 'c': 17}, {'m': 'get_signatures', 'l': 15, 'c': 17},
+              {'m': 'get_signatures', 'l': 16, 'c': 4}, {'m': 'get_signatures', 'l': 17, 'c': 26},
+              {'m': 'get_signatures', 'l': 18, 'c': 17}, {'m': 'get_signatures', 'l': 19, 'c': 14},
+              {'m': 'get_signatures', 'l': 20, 'c': 4}, {'m': 'get_signatures', 'l': 21, 'c': 0},
+              {'m': 'get_signatures', 'l': 23, 'c': 13}, {'m': 'get_signatures', 'l': 24, 'c': 13},
+              {'m': 'complete', 'l': 24, 'c': 13}]
+    state = ['', '', '', 'callee_a']
+    buf = {'name': 'b0', 'path': 'sig.py' if rng.random() < 0.85 else None}
+    knobs = {'cached_size_trigger': rng.choice([2, 600]), 'call_signatures_validity': rng.choice([3.0, 3.0, 10**6]),
+             'fast_parser': rng.random() < 0.8, 'cropped_file_size': 10_000_000}
+    ops = [{'op': 'knob', 'name': n, 'value': v} for n, v in sorted(knobs.items())]
+
+    def q():
+        return {'op': 'query', 'code': text(state), 'path': buf['path'], 'project': {'path': '.'},
+                'probes': [dict(p) for p in probes], 'tree': True, 'buf': 'b0'}
+    ops.append(q())
+    for _ in range(rng.randint(5, 9) if tier == 'quick' else rng.randint(6, 16)):
+        k[0] += 1
+        which = rng.randrange(4)
+        if which == 3:
+            state[3] = rng.choice([x for x in ('callee_a', 'callee_b', 'Maker') if x != state[3]])
+        else:
+            state[which] = rng.choice(['', ', x%d=0' % k[0], ', *, key%d=None' % k[0], ', y%d=1, z%d=2' % (k[0], k[0])])
+        ops.append({'op': 'advance', 'ns': rng.choice([0, 10**6, 5 * 10**8, 29 * 10**8, 31 * 10**8, 29 * 10**8])})
+        if rng.random() < 0.1:
+            ops.append({'op': 'clear_caches', 'delete_all': rng.random() < 0.5})
+        ops.append(q())
+    return {'id': 'c08-%d' % i, 'init': [], 'ops': ops, 'hashseed': rng.randint(0, 2), 'knobs': knobs, 'cwd': None}
+
+
 def gen_case(seed, tier, i):
     rng = driver.rng_for(seed, 'C08', tier, 'case', i)
+    if rng.random() < 0.1:
+        return gen_sigcache_case(seed, tier, i, rng)
     w = world.gen_world(rng, n_top=rng.randint(2, 3), with_pkg=rng.random() < 0.4, with_ns=False)
     init = [{'op': 'fs', 'kind': 'write', 'path': p, 'content': c, 'mt': MT0} for p, c in sorted(w.files.items())]
     nbuf = rng.choice([1, 1, 2, 2, 3])
